@@ -140,6 +140,7 @@ func renderFlags(m map[string]string) string {
 
 type syncSummary struct {
 	exits     dset // states at success exits (E = as at entry)
+	errExits  dset // states at error exits (E = as at entry): what a caller that carries on after the error sees
 	needsSync bool // reads the index while the state is still E
 	needsWhy  string
 	mutates   bool
@@ -208,6 +209,58 @@ func syncRules(c *Ctx) {
 	}
 	c.S.Hold("C10", "SYNC-RELOAD-EQ-NEW", e.reloadFn.QName(), c.P.Pos(e.reloadFn.Decl.Pos()),
 		"re-analysis calls "+strings.Join(newCalls, ", ")+" in the same order as New")
+	// … and New fills the index through those calls only: an entry stored by New itself is missing after a re-analysis
+	{
+		info := c.info(newFn)
+		var direct []string
+		var at token.Pos
+		ast.Inspect(newFn.Decl.Body, func(n ast.Node) bool {
+			as, ok := n.(*ast.AssignStmt)
+			if !ok {
+				return true
+			}
+			for _, l := range as.Lhs {
+				x := core.Unparen(l)
+				steps := 0
+				for {
+					switch v := x.(type) {
+					case *ast.IndexExpr:
+						x = core.Unparen(v.X)
+						steps++
+						continue
+					case *ast.SelectorExpr:
+						x = core.Unparen(v.X)
+						steps++
+						continue
+					case *ast.StarExpr:
+						x = core.Unparen(v.X)
+						continue
+					}
+					break
+				}
+				id, isID := x.(*ast.Ident)
+				if !isID || steps == 0 {
+					continue
+				}
+				if o := info.Uses[id]; o != nil && types.Identical(core.Deref(o.Type()), e.specT) {
+					direct = append(direct, exprStr(l))
+					if at == token.NoPos {
+						at = as.Pos()
+					}
+				}
+			}
+			return true
+		})
+		sort.Strings(direct)
+		c.S.Decide(len(direct) == 0, "C10", "SYNC-RELOAD-EQ-NEW", newFn.QName()+"/direct-stores", c.P.Pos(func() token.Pos {
+			if at != token.NoPos {
+				return at
+			}
+			return newFn.Decl.Pos()
+		}()),
+			"New fills the index only through the calls it shares with the re-analysis",
+			"New stores into the analyzer directly ("+strings.Join(direct, ", ")+"), outside the calls it shares with "+e.reloadFn.Name()+": those entries are missing after every re-analysis, so the Spec handed to Flatten no longer answers like analysis.New(document)")
+	}
 	e.covReset(newFn)
 
 	reach := core.SortedSet(c.P.Reachable(flat))
@@ -220,7 +273,7 @@ func syncRules(c *Ctx) {
 		for _, fi := range reach {
 			old := e.sum[fi]
 			ns := e.analyze(fi)
-			if ns.exits.signature() != old.exits.signature() || ns.needsSync != old.needsSync || ns.mutates != old.mutates {
+			if ns.exits.signature() != old.exits.signature() || ns.errExits.signature() != old.errExits.signature() || ns.needsSync != old.needsSync || ns.mutates != old.mutates {
 				changed = true
 			}
 			e.sum[fi] = ns
@@ -524,10 +577,13 @@ type syncFn struct {
 	flags map[types.Object]bool
 	jumps []dset // per enclosing loop: states at break/continue statements
 	bind  map[int]types.Object
+	// the state before the statement being executed, and before the previous one of the same list
+	curIn, prevIn dset
+	prevStmt      ast.Stmt
 }
 
 func (e *syncEngine) analyze(fi *core.FuncInfo) *syncSummary {
-	f := &syncFn{e: e, fi: fi, info: fi.Pkg.TypesInfo, sum: &syncSummary{exits: dset{}}, flags: map[types.Object]bool{}}
+	f := &syncFn{e: e, fi: fi, info: fi.Pkg.TypesInfo, sum: &syncSummary{exits: dset{}, errExits: dset{}}, flags: map[types.Object]bool{}}
 	// flags: local bools all of whose assignments are constants
 	ld := e.c.P.Locals(fi)
 	isInt := func(t types.Type) bool {
@@ -582,14 +638,73 @@ func (e *syncEngine) analyze(fi *core.FuncInfo) *syncSummary {
 }
 
 func (f *syncFn) stmts(list []ast.Stmt, s dset) (dset, bool) {
-	for _, st := range list {
+	var before dset
+	for i, st := range list {
 		var term bool
+		f.prevIn, f.prevStmt = before, nil
+		if i > 0 {
+			f.prevStmt = list[i-1]
+		}
+		before = s.clone()
+		f.curIn = before
 		s, term = f.stmt(st, s)
 		if term {
 			return s, true
 		}
 	}
 	return s, false
+}
+
+// errorBranch: cond tests `err != nil` (alone, or in a conjunction) on an error assigned from a single module call by
+// the if's own init statement or by the statement just before it. Returns the state in which the callee's error
+// exits leave the document, and whether the test stands alone.
+func (f *syncFn) errorBranch(x *ast.IfStmt, pre dset) (errState dset, alone, ok bool) {
+	atoms := core.SplitCond(x.Cond, false)
+	var errObj types.Object
+	for _, cd := range atoms {
+		if v, nonNil, isNil := core.NilTest(f.info, cd); isNil && nonNil && core.IsErrorType(f.info.TypeOf(v)) {
+			errObj = core.ObjOf(f.info, v)
+		}
+	}
+	if errObj == nil {
+		return nil, false, false
+	}
+	def := x.Init
+	in := pre
+	if def == nil {
+		def = f.prevStmt
+		in = f.prevIn
+	}
+	as, isAs := def.(*ast.AssignStmt)
+	if !isAs || len(as.Rhs) != 1 || in == nil {
+		return nil, false, false
+	}
+	assigns := false
+	for _, l := range as.Lhs {
+		if core.ObjOf(f.info, l) == errObj {
+			assigns = true
+		}
+	}
+	call, isCall := core.Unparen(as.Rhs[0]).(*ast.CallExpr)
+	if !assigns || !isCall {
+		return nil, false, false
+	}
+	callee := f.e.c.P.StaticCallee(f.fi, call)
+	cs := f.e.sum[f.e.c.P.Funcs[callee]]
+	if callee == nil || cs == nil || len(cs.errExits) == 0 {
+		return nil, false, false
+	}
+	out := dset{}
+	for k := range in {
+		for ek := range cs.errExits {
+			st := ek.st
+			if st == stE {
+				st = k.st
+			}
+			out[dtuple{st: st, flags: k.flags}] = true
+		}
+	}
+	return out, len(atoms) == 1, true
 }
 
 func (f *syncFn) isErrorExit(r *ast.ReturnStmt) bool {
@@ -619,6 +734,11 @@ func (f *syncFn) stmt(st ast.Stmt, s dset) (dset, bool) {
 	case *ast.ReturnStmt:
 		for _, r := range x.Results {
 			s = f.expr(r, s)
+		}
+		if f.isErrorExit(x) {
+			for k := range s {
+				f.sum.errExits[dtuple{st: k.st}] = true
+			}
 		}
 		if !f.isErrorExit(x) {
 			for k := range s {
@@ -662,11 +782,21 @@ func (f *syncFn) stmt(st ast.Stmt, s dset) (dset, bool) {
 		}
 		return s, true
 	case *ast.IfStmt:
+		pre := s
+		prevIn, prevStmt := f.prevIn, f.prevStmt
 		if x.Init != nil {
 			s, _ = f.stmt(x.Init, s)
 		}
 		s = f.expr(x.Cond, s)
 		thenIn, elseIn := f.filter(s, x.Cond)
+		// the error branch of a module call sees the document as the callee's error exits leave it
+		f.prevIn, f.prevStmt = prevIn, prevStmt
+		if errState, alone, ok := f.errorBranch(x, pre); ok {
+			thenIn = errState
+			if !alone {
+				elseIn = elseIn.union(errState)
+			}
+		}
 		thenOut, thenT := f.stmts(x.Body.List, thenIn)
 		elseOut, elseT := elseIn, false
 		if x.Else != nil {
